@@ -60,7 +60,7 @@ let () =
         let (v, _) = parse toks in
         let args = (match v with VL l -> l | _ -> failwith "args") in
         let f = (try List.assoc entry entries with Not_found -> failwith ("entry " ^ entry)) in
-        let r = (try f (z_of_string op) args with Stack_overflow -> VErr) in
+        let r = f (z_of_string op) args in
         let buf = Buffer.create 256 in
         print buf r;
         print_string id; print_char '\t'; print_endline (Buffer.contents buf)
